@@ -50,6 +50,43 @@ def cfg_label(cfg):
     return ",".join("%s=%s" % (k, v) for k, v in cfg.items() if not k.startswith("_"))
 
 
+def _innermost_repo_frame(e, repo):
+    import traceback as _tb
+    frames = _tb.extract_tb(e.__traceback__)
+    root = os.path.realpath(repo) + os.sep
+    last = None
+    for i, f in enumerate(frames):
+        if os.path.realpath(f.filename).startswith(root):
+            last = i
+    if last is None:
+        return None
+    # after the repository's frame only library code executing on its behalf (numpy, the shim) may follow
+    for f in frames[last + 1:]:
+        if os.sep + "contracts" + os.sep in f.filename:
+            return None
+    f = frames[last]
+    return "%s:%d %s" % (os.path.relpath(os.path.realpath(f.filename), root), f.lineno, f.name)
+
+
+def _repo_exception(e, jb, kw, seed, core, _sx):
+    where = _innermost_repo_frame(e, _sx.REPO)
+    if where is None:
+        return None
+    env2 = core.Env("native", witness={}, seed=seed, ranges=jb.ranges)
+    try:
+        jb.fn(env2, **kw)
+        return None
+    except Exception as e2:
+        where2 = _innermost_repo_frame(e2, _sx.REPO)
+        if where2 is None or type(e2).__name__ != type(e).__name__:
+            return None
+    msg = "%s: %s (at %s)" % (type(e).__name__, str(e)[:200], where)
+    return dict(prop=",".join(jb.props), name="the repository code completes on the admissible inputs of the contract (no exception)",
+                kind="concrete", n=1, ok=0, undecided=[], secs=0.0, path=None, sample=None,
+                refuted=[dict(entry=None, witness={}, reason="raised " + msg, native="the native run of the contract raises the same exception at %s" % where2,
+                              confirmed=True)])
+
+
 def _finish_pass(env, jb, kw, seed, want_props, res, agg, seen_names, S, core, last):
     """collect one pass of a job: obligations (first occurrence of a name wins), native replay of the refuted ones, the
     shim cross-check"""
@@ -170,7 +207,18 @@ def run_one(args):
             S.PATH.whole = True
             S.PATH.outer_script = list(script)
             env = core.Env("sym", seed=seed, ranges=jb.ranges)
-            jb.fn(env, **kw)
+            try:
+                jb.fn(env, **kw)
+            except (S.OutsideFragment, TimeoutError, KeyboardInterrupt, MemoryError):
+                raise
+            except Exception as e:
+                # an exception raised inside the repository's code: a violation only if the same contract, run natively on
+                # admissible inputs, makes the real code raise the same kind of exception (otherwise a limit of the engine)
+                obl = _repo_exception(e, jb, kw, seed, core, _sx)
+                if obl is None:
+                    raise
+                res["obls"].append(obl)
+                seen_names.add(obl["name"])
             outer = list(S.PATH.outer_taken)
             for i in range(len(script), len(outer)):
                 scripts.append([t[2] for t in outer[:i]] + [True])
